@@ -35,7 +35,7 @@ def describe(tier):
             "reference transducer, repairs a glued closing quote without touching whitespace and labels iff de-escaping changed the text; the "
             "comparison is on the complete result list, so it is both the forward and the converse direction. (3) PowerShell invocations from a "
             "grammar: token x value-less switches x EVERY prefix of -encodedcommand x -// style x argument quoting x payload x caret at EVERY "
-            "position (<=1) x prefix context, and plain invocations x enclosing context {none,'..',\"..\",('..'),unclosed variants} x prefix x suffix; FOR-loop / quoted contexts whose opener lies 0..2200 (thorough ..9000) bytes before the token, every distance, with further quotes inside the command; every sequence of 2 (thorough 3) invocations from a 5-menu (plain / encoded, powershell / pwsh) x 5 shared contexts x 3 prefixes x 3 joiners x 3 suffixes, each invocation delimited on its own; EVERY Basic-Multilingual-Plane code point (surrogates excepted) inside an encoded script. "
+            "position (<=1) x prefix context, and plain invocations x enclosing context {none,'..',\"..\",('..'),unclosed variants} x prefix x suffix; FOR-loop / quoted contexts whose opener lies 0..2200 (thorough ..9000) bytes before the token, every distance, with further quotes inside the command; every sequence of 2 (thorough 3) invocations from a 5-menu (plain / encoded, powershell / pwsh) x 5 shared contexts x 3 prefixes x 3 joiners x 3 suffixes, each invocation delimited on its own; 0..70 (and the ladder up to 1025) value-less switches before the encoded-command switch; EVERY Basic-Multilingual-Plane code point (surrogates excepted) inside an encoded script. "
             "(4) the same cmd reference on every value searched during scans of the shell/pwsh/mix scan-level families (nested contexts, decoded "
             "values). states = distinct inputs, transitions = decoder invocations compared, traces = comparisons with the reference. "
             "Non-trivial = an input on which the reference expects at least one result."
@@ -56,7 +56,7 @@ def plan(tier, seed):
     units += [("ps-enc", tier, i) for i in range(len(PS_TOKENS))]
     units += [("ps-plain", tier)] + [("ps-far", tier, i) for i in range(8)]
     units += [("ps-multi", tier, i) for i in range(len(MULTI_INV))]
-    units += [("ps-codepoints", i, 16) for i in range(16)]
+    units += [("ps-codepoints", i, 16) for i in range(16)] + [("ps-switch-ladder",)]
     units += [("stream", u) for u in streams.plan(tier, fams=STREAM_FAMS)]
     units += core.interp_axis([("ps-plain", tier), ("ps-multi", tier, 0), ("ps-multi", tier, 1), ("ps-far", tier, 0), ("ps-enc", tier, 1)] + [("cmd", tier, u[2]) for u in CMD.units(tier)[:4]] + [("carets", tier, u[2]) for u in CARETS.units(tier)[:2]])
     return units
@@ -329,6 +329,23 @@ def run_unit(unit, rec):
             rec.mark("states", data, True)
             check_ps(rec, data, start, exp, w, len(data))
         rec.sample({"family": "ps-plain", "last": data})
+    elif kind == "ps-switch-ladder":
+        # the number of value-less switches before the encoded-command switch is an unbounded quantity too: 0..70 and the boundary ladder
+        menu = [b"-nop", b"-NonI", b"-sta", b"/w", b"-noni", b"-NoLogo"]
+        payload = PS_PAYLOADS[1]
+        n = 0
+        for k in sorted(set(range(0, 71)) | set(core.ladder(70, 1025))):
+            sw = [menu[i % len(menu)] for i in range(k)]
+            for token in (b"powershell.exe", b"pwsh"):
+                for pre, post in ((b"x;", b""), (b'cmd /c "', b'" & exit')):
+                    inv = token + b"".join(b" " + s for s in sw) + b" -EncodedCommand " + payload
+                    data = pre + inv + post
+                    start = len(pre)
+                    rec.mark("states", 0, True)
+                    check_ps(rec, data, start, ps_expected_enc(data, start, start + len(inv), token, [s.replace(b"/", b"-") for s in sw], payload),
+                             {"kind": "ps-enc", "data": data, "start": start, "end": start + len(inv), "token_len": len(token), "switches": [s.replace(b"/", b"-") for s in sw], "payload": payload}, len(data))
+                    n += 1
+        rec.sample({"family": "ps-switch-ladder", "switch_counts": "0..70 + ladder to 1025", "cases": n})
     elif kind == "ps-codepoints":
         # EVERY code point of the Basic Multilingual Plane (surrogates excepted) inside the encoded script: the value is the UTF-16 decoding, no more
         n = 0
